@@ -75,6 +75,9 @@ impl<'a> StringLexer<'a> {
                     }
                     b'\\' => Some(b'\\'),
 
+                    // not an escape sequence: the backslash is ignored
+                    c if !(b'0'..=b'7').contains(&c) => Some(c),
+
                     _ => {
                         self.back()?;
                         let _start = self.get_offset();
